@@ -23,7 +23,7 @@ NR = 9
 
 def key_families(rng):
     fams = {}
-    for name in ["be4", "empty0", "prefix", "marker", "ascii", "nonutf8", "long", "len128", "fix20"]:
+    for name in ["be4", "empty0", "prefix", "marker", "ascii", "nonutf8", "long", "len128", "fix20", "zerotail", "zerotail8"]:
         fams[name] = concrete.key_family(name, NR, rng)
     ks = concrete.key_family("be4", NR, rng)
     ks[7] = b"\xff" * 6000          # the last WRITTEN key dominates index.rio
